@@ -48,7 +48,7 @@ class Unit:
         self.lines = source.splitlines()
         if not os.environ.get('VERIF_NO_NORMALIZE'):
             from .normalize import normalize
-            normalize(self.tree)
+            normalize(self.tree, relpath)
         for node in ast.walk(self.tree):
             for child in ast.iter_child_nodes(node):
                 child._parent = node
